@@ -373,8 +373,13 @@ class PageTemplate(BaseTemplate):
             _kw['repeat'] = RepeatDict({})
 
         # The loops find the dictionary under an internal name; the
-        # variable ``repeat`` may be redefined by the template.
-        setdefault("__repeat", _kw['repeat'])
+        # variable ``repeat`` may be redefined by the template (or be
+        # passed in with a value of the caller's own).
+        repeat = _kw['repeat']
+        setdefault(
+            "__repeat",
+            repeat if isinstance(repeat, RepeatDict) else RepeatDict({})
+        )
 
         return super().render(**_kw)
 
